@@ -399,6 +399,13 @@ func onceDo(x *Exec, st *State, a []Val, s ssa.Instruction) []Val {
 		st.addEvent(Event{Kind: "callfn", Args: []Val{f}})
 		return nil
 	}
+	if sp := x.eng.funcSpecs[funcKey(f.Fn.Fn)]; sp != nil && sp.HasMod {
+		// the body has its own contract (it is verified on its own, as a once_body): use it here
+		x.pendingClosure = f.Fn
+		x.applyContract(st, sp, f.Fn.Fn, nil, nil, s)
+		x.pendingClosure = nil
+		return nil
+	}
 	// writes performed inside Once.Do happen-before every later Do return: treat as synchronised
 	hl := HeldLock{Field: "once:" + p.prefix(), Ref: p.T(), Mode: "W"}
 	st.held = append(st.held, hl)
